@@ -126,6 +126,7 @@ static void prop_truthful(Tape &t, Ctx &c) {
     ptree pprm; if (amg_class) cfg.put_amg(pprm, ""); else { pprm.put("class", "relaxation"); cfg.put_relax(pprm, ""); }
     auto Acrs = to_crs<double>(A);
     double K = kappaS, nB1 = 1, eta = 0; size_t levels = 1;
+    Mat Mop; // the operator the recursions of the solver run on: A2 B (right preconditioning) or B A2 (left)
     // eta: relative accuracy with which the preconditioner is applied, measured as the linearity defect
     // ||P(3 v) - 3 P(v)|| / ||P(3 v)|| and ||B v - P(v)|| / ||P(v)|| on two probe vectors.  A few u for a numerically stable
     // cycle; hierarchies with huge, mutually cancelling transfer operators (emin on non-symmetric matrices: 5e-4) apply
@@ -152,6 +153,7 @@ static void prop_truthful(Tape &t, Ctx &c) {
             if (all_finite(B)) probe(P0, B);
         } else { amgcl::runtime::preconditioner<Backend> P0(*Acrs, pprm); B = extract_operator(P0, n); if (all_finite(B)) probe(P0, B); }
         if (all_finite(B)) {
+            Mop = sc.is_left() ? Mat(B * Asd) : Mat(Asd * B);
             Mat AB = Asd * B; // B belongs to the setup matrix, the recursions run on A2 B
             Eigen::PartialPivLU<Mat> lab(AB);
             Mat ABi = lab.inverse();
@@ -233,25 +235,25 @@ static void prop_truthful(Tape &t, Ctx &c) {
         allow = ALLOW_C * ueff * K * (iters + 2.0) * peak * unit + 64.0 * U;
     }
     if (env_flag("VF_C01_TRACE")) std::cerr << "TRACE diff/allow=" << (allow > 0 ? (diff - 0.01 * big) / allow : 0) << " reldiff=" << (big > 0 ? diff / big : 0) << " K=" << K << " kappa1=" << S.kappa1 << " iters=" << iters << " " << sc.str() << " | " << (amg_class ? cfg.str() : std::string("relaxation ") + relax_name[cfg.relax]) << "\n";
-    // Known finding F-recursion-gap: BiCGStab(L) and IDR(s) (residual replacement only acts once per s+1 steps) carry a
-    // recursively updated residual and solve small dense sub-problems (the (L+1)x(L+1) Gram matrix of the MR polynomial,
-    // the s x s matrix P^T G) that become singular when the Krylov space is (nearly) exhausted -- within the budget on
-    // small or nearly decoupled systems.  Only an exactly zero pivot is guarded (precondition(!is_zero(..))), so the
-    // iteration continues with garbage and the carried residual under-reports the true one far beyond u K iters peak:
-    // BiCGStab(L=3) on a 2x2 system with kappa_1 = 12 returns 4.6e-16 < tol = 1.6e-11 with a true residual of 7.6e-10
-    // (85 x the allowance); IDR(7) with smoothing at kappa_1 = 705: reported 1.4e-13, true 6.4e-9.  Inside the region a
-    // weaker statement is still asserted (below); a case that violates only the strict bound is counted as the finding.
-    bool gap_region = sc.type == IDRS || sc.type == BICGSTABL;
-    bool strict_a = diff <= 0.01 * big + allow;
-    bool strict_b = !(reported < sc.tol) || !(allow <= 0.06 * sc.tol) || truth < 1.1 * sc.tol;
-    if (gap_region && (!strict_a || !strict_b)) {
-        // the amplification near a breakdown is unbounded, but it only bites once the residual has been reduced far below
-        // the largest residual of the history: a gap at a residual level above 1e-3 of that is not explained by it
-        VF_REQUIRE(big <= 1e-3 * G * unit || diff <= 0.01 * big + 1000.0 * allow, solver_name[sc.type] << ": reported residual " << std::setprecision(10) << reported << " but true relative residual is " << truth
-                   << " (difference " << diff << ", 1000 x allowance " << 0.01 * big + 1000.0 * allow << ", iters " << iters << ", largest residual of the history " << G * unit << ")");
-        c.label("recursion-gap");
-        if (c.known("F-recursion-gap")) return;
+    // Known finding F-recursion-gap.  BiCGStab(L) and IDR(s) carry a recursively updated residual and solve small dense
+    // sub-problems (the (L+1)x(L+1) Gram matrix of the MR polynomial, the s x s matrix P^T G) that become singular when the
+    // Krylov space is exhausted.  Only an exactly zero pivot is guarded (precondition(!is_zero(..))) and the stopping test is
+    // the carried residual itself, so a run whose tolerance is not met at exhaustion continues with garbage: the carried
+    // residual then has nothing to do with the true one -- under-reported by 6 orders (BiCGStab(L=3), 2x2 system, kappa_1 = 12:
+    // 4.6e-16 < tol = 1.6e-11, true 7.6e-10) or blown up and off by percents (BiCGStab(L=4), n = 5, 8 products in the single
+    // outer iteration: reported 141.2, true 143.2).  The region is a class of INPUTS: the run performs at least as many
+    // matrix-vector products as the numerical grade g of (M, r0), M = A B resp. B A, r0 the (preconditioned) initial residual,
+    // g = first Arnoldi step with h_{j+1,j} <= 1e-6 max h.  Nothing can be bounded inside (the amplification of a near
+    // breakdown is unbounded); the iteration budget (c) is asserted above.  Outside the class the strict bound applies.
+    if (sc.type == IDRS || sc.type == BICGSTABL) {
+        size_t matvecs = sc.type == BICGSTABL ? 2 * iters : iters + iters / std::max(1u, sc.s) + 1;
+        Vec r0v(n); { Res<double> ri = residual_ld(As, f, x0); for (ptrdiff_t i = 0; i < n; ++i) r0v[i] = ri.r[i]; }
+        if (left) { std::vector<double> rr(r0v.data(), r0v.data() + n), z(n, 0.0); if (amg_class) sa->precond().apply(rr, z); else sr->precond().apply(rr, z); for (ptrdiff_t i = 0; i < n; ++i) r0v[i] = z[i]; }
+        size_t grade = numerical_grade(Mop, r0v, matvecs, 1e-6);
+        c.label(matvecs >= grade ? "krylov:exhausted" : "krylov:not-exhausted");
+        if (matvecs >= grade) { c.desc << " | F-recursion-gap: " << matvecs << " products, numerical grade " << grade; if (c.known("F-recursion-gap")) return; }
     }
+    bool strict_a = diff <= 0.01 * big + allow;
     VF_REQUIRE(strict_a, "reported residual " << std::setprecision(10) << reported << " but true " << (left ? "preconditioned " : "") << "relative residual is " << truth
                << " (difference " << diff << ", allowance " << 0.01 * big + allow << ", iters " << iters << ")");
     // ---- (b) a value below the tolerance means solved (decidable when the rounding allowance is small against tol)
